@@ -100,7 +100,8 @@ CHECKS = {
         'applied to a fresh original and to a fresh clone and the other side must be unchanged (0.4 M mutations quick). A reset-link grid (2 shapes x variable in {own, sibling, child, no component, null} x test_variable in the same five x order set/unset = 100 models) gets the same oracle and mutation phase, '
         'plus: a link to a variable of the reset\'s own component must be re-targeted to the clone\'s variable at the same position. An import-sharing grid (imported component with an imported child / grandchild below a local child / sibling, with or without imported units, every partition of these entities into shared '
         'import-source objects: 21 models, API-built and parsed) adds: the sharing partition of import sources is the same in original and clone. A twins grid (122 models, API-built and parsed: content-equal sibling components / variables / units / resets with equivalences, resets and shared import sources on the first, '
-        'the later or both twins) gets the same oracle. A further family clones models with an equivalence to a variable outside '
+        'the later or both twins) gets the same oracle. An equivalence-position grid (all ordered forests on 2..5 components of depth <= 3 x which components bear a variable x which pair of them is connected, or all pairs: 3678 models, '
+        'API-built and parsed) is judged with the oracle before mutation on every entity. A further family clones models with an equivalence to a variable outside '
         'the model (no crash, own equivalences unchanged).',
    note='Trusted: canonical dumps (common.hpp, c10c11.hpp), the JSON->API builder, the repository printer/parser for the parsed origin and the printed-form comparison, ASan/UBSan. Known field '
         'losses are repaired on the clone from outside before the whole-object comparisons so that other differences still surface. The mutation phase of the parsed origin runs without ASan. Only one '
@@ -181,7 +182,7 @@ CHECKS = {
         'Every history (mixed-radix index) runs once in a forked child of a pristine process and is followed by EVERY operation in a forked grandchild. Judged per (history, probe): '
         'raw model dump (raw math strings) / text / issue list with descriptions equal to the fresh-process observation; argument model unchanged; second call on the same instance '
         'observes the same; every model, issue and AnalyserModel returned earlier dumps as when returned (AnalyserModel dump = variables, equations and every equation AST node with the consistency of its parent link); Analyser::model() exposes only the model just analysed. '
-        'Quick: 757 histories x 27 probes (+28 under ASan); thorough: 20440 x 27. Conflicting-twin family: a second alphabet of 32 operations = 16 parser/service calls on a document and on its conflicting twin (every name kept, every meaning changed: units definitions, variable units / initial values, moved ids, import references, imported file content under the same url, numbers in the math), all histories of length <= 1 (quick: 66 cases x 32 probes) / <= 2 (thorough: 2114 x 32) on one set of service instances, each in two modes (caller keeps / destroys every model and result after each call; the destroying mode also under ASan), all issue levels compared with a fresh process. BFS over global-state tuples runs to closure (7 states, 182 transitions), two histories with the same '
+        'Quick: 757 histories x 27 probes (+28 under ASan); thorough: 20440 x 27. Conflicting-twin family: a second alphabet of 32 operations = 16 parser/service calls on a document and on its conflicting twin (every name kept, every meaning changed: units definitions, variable units / initial values, moved ids, import references, imported file content under the same url, numbers in the math), all histories of length <= 1 (quick: 66 cases x 32 probes) / <= 2 (thorough: 2114 x 32) on one set of service instances, each in two modes (caller keeps / destroys every model and result after each call; the destroying mode also under ASan), all issue levels compared with a fresh process. Query family: 73 getters / lookups of the long-lived service instances (Importer library by key and index, Logger getters of every service, Annotator typed lookups with known / unknown / wrong-kind ids and out-of-range indices, Analyser external-variable lookups, Generator getters, strict flags) inserted before / after / instead of the op of every history of length <= 1 (quick: 9 group sweeps x 55 positions = 495 cases, bisected to the single getter on anomaly, + 55 under ASan; thorough: every single getter too, 4510 cases), each followed by all 27 probes and a dump of the documented state of every instance: a query must change nothing. BFS over global-state tuples runs to closure (7 states, 182 transitions), two histories with the same '
         'tuple but different observations are reported as harness abstraction errors (exit 2). Complete for the stated bound; nothing is sampled.',
    note='Trusted: the canonical dumps in harness/common.hpp + c12.cpp (public getters), fork() isolation, dlsym/ELF-symtab reads of the globals (no libxml2 accessor is called), libxml2 itself. '
         'The known blank-handling leak is filtered by a CAUSAL predicate only: the finding must vanish when xmlKeepBlanksDefaultValue is put back to its fresh value after every library '
@@ -208,7 +209,7 @@ CHECKS = {
         'map_components first/last; public_interface/private_interface in both orders x "none" spelled out or omitted; three in/out patterns; units in the model or in the using '
         'component; cmeta:id or id; litre/metre or liter/meter; cellml prefix declared on math/cn/model; with or without 1.x-only constructs (RDF, reaction/role, base_units). Oracle: '
         'permissive parse == strict parse of the 2.0 text (canonical dump), nothing above MESSAGE, version message first, transformed model validates, prints and re-reads the same; '
-        'strict parser: >= 1 error and an empty model. Quick 83 220 documents (+ 12 000 under ASan+UBSan), thorough 2 370 498 (+ the 83 220 under sanitizers), plus 19 single-construct '
+        'strict parser: >= 1 error and an empty model. Quick 83 220 documents (+ 12 000 under ASan+UBSan), thorough 2 370 498 (+ the 83 220 under sanitizers), plus the child-order family (position of the relationship_ref elements inside the encapsulation group, every order of the model child blocks and of the component child kinds, map_components between the map_variables, import children reversed; quick 10 264 documents with identity/reverse/rotations of each permutation, thorough 201 744 with every permutation), plus 19 single-construct '
         'probes x 2 namespaces. Complete for the stated bounds; nothing is sampled.',
    note='Trusted: the 1.x and 2.0 renderers of harness/modelspec.hpp (the mechanical rewrite rules, written from the CellML 1.0/1.1 specifications), the canonical dump of '
         'harness/common.hpp, the strict parser on the 2.0 text as reference (its faithfulness is C02\'s check on the same specs), the real validator. Not claimed: real-world 1.x files, '
